@@ -35,6 +35,18 @@ def spell(kind, cls, d, rng):
     return s
 
 
+def must_be_aliquot(w, js, clean, i):
+    """mirror of AliquotLexTrace!MustBeAliquot (only used to decide which results to compare with the canonical text)"""
+    if w[i]["class"] != "BAREQ" or clean:
+        return True
+    h = i - 1
+    while h >= 0 and w[h]["class"] == "BAREQ":
+        h -= 1
+    if h < 0 or w[h]["kind"] != "H":
+        return False
+    return h == 0 or js[h - 1] != "NONE" or w[h - 1]["kind"] == "H"
+
+
 def mk_case(cid, w, js, clean, recognised, rng, origin="tlc"):
     hs, qs = ["N", "S", "E", "W"], ["NE", "NW", "SE", "SW"]
     rng.shuffle(hs)
@@ -49,7 +61,7 @@ def mk_case(cid, w, js, clean, recognised, rng, origin="tlc"):
     return {"id": cid, "kind": "c07", "origin": origin,
             "abs": {"w": w, "js": list(js), "clean": bool(clean), "dirs": dirs},
             "args": {"text": text, "canon": canon, "clean": bool(clean), "w": w, "dirs": dirs,
-                     "all_recognised": all(recognised)}}
+                     "all_recognised": all(must_be_aliquot(w, js, clean, i) for i in range(len(w)))}}
 
 
 def check(ctx, cases):
@@ -94,7 +106,8 @@ def run(ctx):
     cases = []
     keep3 = 0.35 if thorough else 0.03
     for i, c in enumerate(res.cases):
-        if len(c["w"]) == 3 and ctx.rng.random() > keep3:
+        has_bare = any(x["class"] == "BAREQ" for x in c["w"])
+        if len(c["w"]) == 3 and ctx.rng.random() > (keep3 * 8 if has_bare else keep3):
             continue
         if sum(1 for x in c["w"] if x["kind"] == "Q") > 4 or sum(1 for x in c["w"] if x["kind"] == "H") > 4:
             continue
